@@ -22,6 +22,7 @@ import (
 	abci "github.com/tendermint/tendermint/abci/types"
 	"github.com/tendermint/tendermint/crypto"
 	"github.com/tendermint/tendermint/crypto/ed25519"
+	"github.com/tendermint/tendermint/crypto/merkle"
 	cryptoenc "github.com/tendermint/tendermint/crypto/encoding"
 	"github.com/tendermint/tendermint/libs/log"
 	tmsync "github.com/tendermint/tendermint/libs/sync"
@@ -416,23 +417,32 @@ type scriptApp struct {
 	i  int
 }
 
+// replica-specific noise for every field outside the whitelist of types.deterministicResponseDeliverTx
+// (Code, Data, GasWanted, GasUsed): Log, Info, Events, Codespace; and for Begin/EndBlock events
+func (a *scriptApp) noise() (string, []abci.Event) {
+	tag := fmt.Sprintf("replica-%p", a)
+	return tag, []abci.Event{{Type: "noise", Attributes: []abci.EventAttribute{{Key: []byte("who"), Value: []byte(tag), Index: true}}}}
+}
+
 func (a *scriptApp) BeginBlock(abci.RequestBeginBlock) abci.ResponseBeginBlock {
 	a.i = 0
-	return abci.ResponseBeginBlock{}
+	_, ev := a.noise()
+	return abci.ResponseBeginBlock{Events: ev}
 }
 func (a *scriptApp) DeliverTx(abci.RequestDeliverTx) abci.ResponseDeliverTx {
 	var r abci.ResponseDeliverTx
 	if a.i < len(a.sc.Results) {
 		r = a.sc.Results[a.i]
 	}
-	// non-deterministic-looking fields that must not reach the results hash
-	r.Log = fmt.Sprintf("log-%p", a)
-	r.Info = "info"
+	// non-deterministic fields that must not reach the results hash / the next state
+	tag, ev := a.noise()
+	r.Log, r.Info, r.Codespace, r.Events = "log-"+tag, "info-"+tag, "cs-"+tag, ev
 	a.i++
 	return r
 }
 func (a *scriptApp) EndBlock(abci.RequestEndBlock) abci.ResponseEndBlock {
-	return abci.ResponseEndBlock{ValidatorUpdates: a.sc.ValUpd, ConsensusParamUpdates: a.sc.PU}
+	_, ev := a.noise()
+	return abci.ResponseEndBlock{ValidatorUpdates: a.sc.ValUpd, ConsensusParamUpdates: a.sc.PU, Events: ev}
 }
 func (a *scriptApp) Commit() abci.ResponseCommit { return abci.ResponseCommit{Data: a.sc.AppHash} }
 
@@ -599,10 +609,18 @@ func errClass(err error) string {
 
 // ---------------------------------------------------------------- Exec
 
-func blockLine(r *replica, b blkT, admit bool) string {
+func blockLine(r, rb *replica, b blkT, admit bool) string {
 	blk := realBlock(b)
 	r.evp.admit = admit
 	v := errClass(r.exec.ValidateBlock(r.state, realBlock(b)))
+	// the independently constructed replica must reach the same verdict on the same block
+	rbv := "same"
+	if rb != nil && rb.state.Validators != nil {
+		rb.evp.admit = admit
+		if v2 := errClass(rb.exec.ValidateBlock(rb.state, realBlock(b))); v2 != v {
+			rbv = "DIFF:" + v2
+		}
+	}
 	histMu.Lock()
 	verdHist[v]++
 	histMu.Unlock()
@@ -620,7 +638,7 @@ func blockLine(r *replica, b blkT, admit bool) string {
 		lch = hex.EncodeToString(blk.LastCommit.Hash())
 	}
 	return fmt.Sprintf("hh=%s size=%d enc=%s lch=%s dh=%s eh=%s evsize=%d v=%s", hx(blk.Header.Hash()), blk.Size(), hex.EncodeToString(sum[:8]),
-		lch, hex.EncodeToString(blk.Data.Hash()), hex.EncodeToString(blk.Evidence.Hash()), blk.Evidence.ByteSize(), v)
+		lch, hex.EncodeToString(blk.Data.Hash()), hex.EncodeToString(blk.Evidence.Hash()), blk.Evidence.ByteSize(), v) + " rb=" + rbv
 }
 
 func parsePU(s string) *abci.ConsensusParams {
@@ -775,7 +793,7 @@ func execOp(a, b *replica, cur **blkT, op string) (out string) {
 		realBlock(bt)
 		parsed = true
 		*cur = &bt
-		return blockLine(a, bt, m["evadm"] != "0")
+		return blockLine(a, b, bt, m["evadm"] != "0")
 	case "make":
 		if a.state.Validators == nil {
 			return "bad-op"
@@ -793,7 +811,7 @@ func execOp(a, b *replica, cur **blkT, op string) (out string) {
 		blk, _ := a.state.MakeBlock(mh, txs, realCommit(c), mevs, mprop)
 		bt := opBlock(blk)
 		*cur = &bt
-		return bt.headerToks() + " " + blockLine(a, bt, m["evadm"] != "0")
+		return bt.headerToks() + " " + blockLine(a, b, bt, m["evadm"] != "0")
 	case "create":
 		if a.state.Validators == nil {
 			return "bad-op"
@@ -826,7 +844,7 @@ func execOp(a, b *replica, cur **blkT, op string) (out string) {
 		}
 		bt := opBlock(blk)
 		*cur = &bt
-		return fmt.Sprintf("maxdata=%d ntx=%d %s fits=%v", a.mp.gotMax, a.mp.reaped, blockLine(a, bt, m["evadm"] != "0"),
+		return fmt.Sprintf("maxdata=%d ntx=%d %s fits=%v", a.mp.gotMax, a.mp.reaped, blockLine(a, b, bt, m["evadm"] != "0"),
 			int64(blk.Size()) <= a.state.ConsensusParams.Block.MaxBytes)
 	case "apply":
 		if a.state.Validators == nil || *cur == nil {
@@ -869,7 +887,21 @@ func execOp(a, b *replica, cur **blkT, op string) (out string) {
 			return applyClass(errA)
 		}
 		det := "same"
+		// reference: Merkle root over exactly the fields the ABCI specification calls deterministic
+		var leaves [][]byte
+		for k := range blkA.Txs {
+			var rs abci.ResponseDeliverTx
+			if k < len(sc.Results) {
+				rs = abci.ResponseDeliverTx{Code: sc.Results[k].Code, Data: sc.Results[k].Data, GasWanted: sc.Results[k].GasWanted, GasUsed: sc.Results[k].GasUsed}
+			}
+			bz, _ := rs.Marshal()
+			leaves = append(leaves, bz)
+		}
 		switch {
+		case !bytes.Equal(stA.LastResultsHash, stB.LastResultsHash):
+			det = "DIFF:last-results-hash"
+		case !bytes.Equal(stA.LastResultsHash, merkle.HashFromByteSlices(leaves)):
+			det = "DIFF:results-hash-covers-more-than-code-data-gas"
 		case !bytes.Equal(stA.Bytes(), stB.Bytes()):
 			det = "DIFF:state-bytes"
 		case !bytes.Equal(blkA.Hash(), blkB.Hash()):
@@ -904,6 +936,67 @@ func execCase(c core.Case) []string {
 	return out
 }
 
+
+// ---------------------------------------------------------------- reference weighted median (oracle side)
+
+type wtE struct {
+	ts *big.Int
+	w  int64
+}
+
+func parseWT(s string) []wtE {
+	var out []wtE
+	if s == "" || s == "-" {
+		return out
+	}
+	for _, e := range strings.Split(s, ";") {
+		q := strings.Split(e, ":")
+		t, _ := new(big.Int).SetString(q[0], 10)
+		out = append(out, wtE{t, atoi(q[1])})
+	}
+	return out
+}
+
+// the rule of the BFT-time specification as the code documents it: order the votes by time, the
+// block time is the time of the first vote at which the cumulative voting power reaches half
+// (integer half) of the power present in the commit; nil if there is no vote
+func refMedian(w []wtE) *big.Int {
+	w = append([]wtE{}, w...)
+	sort.SliceStable(w, func(i, j int) bool { return w[i].ts.Cmp(w[j].ts) < 0 })
+	var tot int64
+	for _, e := range w {
+		tot += e.w
+	}
+	half, cum := tot/2, int64(0)
+	for _, e := range w {
+		cum += e.w
+		if cum >= half {
+			return e.ts
+		}
+	}
+	return nil
+}
+
+// (timestamp, power) of the commit's non-absent votes of known validators — input of the oracle
+func wtHint(st sm.State, c commitT) string {
+	var out []string
+	if st.LastValidators == nil {
+		return "-"
+	}
+	for _, s := range c.Sigs {
+		if s.Flag == 1 {
+			continue
+		}
+		if _, v := st.LastValidators.GetByAddress(s.Addr); v != nil {
+			out = append(out, fmt.Sprintf("%s:%d", s.TS, v.VotingPower))
+		}
+	}
+	if len(out) == 0 {
+		return "-"
+	}
+	return strings.Join(out, ";")
+}
+
 // ---------------------------------------------------------------- oracle (the property itself)
 
 func outKV(s string) map[string]string {
@@ -918,6 +1011,7 @@ func outKV(s string) map[string]string {
 
 func oracle(c core.Case, out []string) []core.Finding {
 	var fs []core.Finding
+	var ih, lbt string // of the state the node currently holds (from its own printed state)
 	for i, op := range c.Ops {
 		if i >= len(out) {
 			break
@@ -925,6 +1019,38 @@ func oracle(c core.Case, out []string) []core.Finding {
 		m := kvs(op)
 		o := outKV(out[i])
 		kind := strings.Fields(op)[0]
+		if (kind == "block" || kind == "make") && o["v"] == "ok" && ih != "" && m["h"] != "" {
+			// an accepted block above the initial height: time strictly after the previous block's
+			// and equal to the weighted median of its last commit
+			bt := m["t"]
+			if kind == "make" {
+				bt = o["t"]
+			}
+			h, _ := new(big.Int).SetString(m["h"], 10)
+			i0, _ := new(big.Int).SetString(ih, 10)
+			t, ok1 := new(big.Int).SetString(bt, 10)
+			l, ok2 := new(big.Int).SetString(lbt, 10)
+			if h != nil && i0 != nil && ok1 && ok2 && h.Cmp(i0) > 0 {
+				if t.Cmp(l) <= 0 {
+					fs = append(fs, core.Finding{Fingerprint: "ValidateBlock.accepts.time-not-after-last-block",
+						Desc: fmt.Sprintf("an accepted block at height %s carries time %s, not later than the previous block's time %s", m["h"], bt, lbt)})
+				}
+				if w := parseWT(m["wt"]); m["wt"] != "" {
+					if rm := refMedian(w); rm == nil || rm.Cmp(t) != 0 {
+						fs = append(fs, core.Finding{Fingerprint: "ValidateBlock.accepts.time-not-weighted-median",
+							Desc: fmt.Sprintf("an accepted block at height %s carries time %s, the weighted median of its last commit is %v", m["h"], bt, rm)})
+					}
+				}
+			}
+		}
+		if o["rb"] != "" && o["rb"] != "same" {
+			fs = append(fs, core.Finding{Fingerprint: "ValidateBlock.replicas-disagree", Desc: "replica B judges replica A's block differently: A " + o["v"] + ", B " + o["rb"]})
+		}
+		if strings.HasPrefix(out[i], "st ") || strings.Contains(out[i], " st vb=") {
+			if o["ih"] != "" && o["lbt"] != "" {
+				ih, lbt = o["ih"], o["lbt"]
+			}
+		}
 		if strings.HasPrefix(out[i], "panic:") {
 			fs = append(fs, core.Finding{Fingerprint: kind + ".panic", Desc: "the code under test panicked on op " + trunc(op, 200) + ": " + out[i]})
 			continue
@@ -1099,12 +1225,24 @@ func (g *gen) commitForW(st sm.State, scn string) (*types.Commit, int64, int64) 
 			}
 		}
 	}
+	staleEarlier, staleLate := r.Intn(3) == 0, -1
+	if r.Intn(3) == 0 {
+		staleLate = r.Intn(n)
+	}
 	for i := 0; i < n; i++ {
 		if flags[i] == types.BlockIDFlagAbsent {
 			sigs[i] = types.NewCommitSigAbsent()
 			continue
 		}
 		ts := base.Add(time.Duration(1+r.Intn(5)) * time.Duration([]int64{1, 1000, 1000000, 1000000000}[r.Intn(4)]))
+		if scn == "stale-time" { // correctly signed votes that do not advance the clock
+			ts = base
+			if staleEarlier {
+				ts = base.Add(-time.Duration(r.Intn(3)) * time.Millisecond)
+			} else if i == staleLate {
+				ts = base.Add(time.Second)
+			}
+		}
 		if byz[i] {
 			switch r.Intn(3) {
 			case 0:
@@ -1361,7 +1499,7 @@ func (g *gen) perturbations(st sm.State, b blkT) []pert {
 }
 
 func (g *gen) blockOp(st sm.State, b blkT, extra string) string {
-	return "block " + b.toks() + " vc=" + vcHint(st, b) + extra
+	return "block " + b.toks() + " vc=" + vcHint(st, b) + " wt=" + wtHint(st, b.LC) + extra
 }
 
 func (g *gen) txs(n int) [][]byte {
@@ -1458,11 +1596,22 @@ func (g *gen) chain(tier string, kind string) core.Case {
 		if kind == "byztime" && st.LastBlockHeight > 0 && r.Intn(2) == 0 {
 			scn = "byz-time"
 		}
+		if scn == "honest" && st.LastBlockHeight > 0 && kind != "wide" && r.Intn(8) == 0 {
+			scn = "stale-time"
+		}
 		histMu.Lock()
 		scnHist[scn]++
 		histMu.Unlock()
 		commit, byzw, totw := g.commitForW(st, scn)
 		lc := opCommit(commit)
+		mkExpect, mkPert := "ok", ""
+		if scn == "stale-time" {
+			// the property: the block time is the weighted median AND later than the previous block
+			l, _ := new(big.Int).SetString(nanos(st.LastBlockTime), 10)
+			if rm := refMedian(parseWT(wtHint(st, lc))); rm != nil && rm.Cmp(l) <= 0 {
+				mkExpect, mkPert = "reject", " pert=time.median-not-after-last-block"
+			}
+		}
 		prop := st.Validators.Validators[r.Intn(len(st.Validators.Validators))].Address
 		var evs []evT
 		for k := r.Intn(3); k > 0 && r.Intn(2) == 0; k-- {
@@ -1505,8 +1654,8 @@ func (g *gen) chain(tier string, kind string) core.Case {
 				showCommit(lc), vcHint(st, blkT{H: h, LC: lc}), exp(map[bool]string{true: "ok", false: "any"}[scn == "honest"]), cscn, budget))
 		}
 		// the proposer's block
-		mk := fmt.Sprintf("make h=%d txs=%s ev=%s prop=%s lc=%s vc=%s evadm=1 expect=%s scn=%s byzw=%d totw=%d", h, hxList(txs), showEvs(evs), hx(prop), showCommit(lc),
-			vcHint(st, blkT{H: h, LC: lc}), exp("ok"), scn, byzw, totw)
+		mk := fmt.Sprintf("make h=%d txs=%s ev=%s prop=%s lc=%s vc=%s evadm=1 expect=%s scn=%s byzw=%d totw=%d wt=%s%s", h, hxList(txs), showEvs(evs), hx(prop), showCommit(lc),
+			vcHint(st, blkT{H: h, LC: lc}), exp(mkExpect), scn, byzw, totw, wtHint(st, lc), mkPert)
 		g.emit(mk)
 		var rtxs []types.Tx
 		for _, t := range txs {
@@ -1538,8 +1687,8 @@ func (g *gen) chain(tier string, kind string) core.Case {
 			// chain continues with an honest commit instead
 			commit = g.commitFor(st, "honest")
 			lc = opCommit(commit)
-			g.emit(fmt.Sprintf("make h=%d txs=%s ev=%s prop=%s lc=%s vc=%s evadm=1 expect=ok scn=honest", h, hxList(txs), showEvs(evs), hx(prop), showCommit(lc),
-				vcHint(st, blkT{H: h, LC: lc})))
+			g.emit(fmt.Sprintf("make h=%d txs=%s ev=%s prop=%s lc=%s vc=%s evadm=1 expect=ok scn=honest wt=%s", h, hxList(txs), showEvs(evs), hx(prop), showCommit(lc),
+				vcHint(st, blkT{H: h, LC: lc}), wtHint(st, lc)))
 			blk, parts = st.MakeBlock(h, rtxs, commit, realEvs(evs), prop)
 			b = opBlock(blk)
 		}
